@@ -28,7 +28,7 @@ fn adj(a: Cell, b: Cell) -> bool {
     dx >= -1 && dx <= 1 && dy >= -1 && dy <= 1
 }
 
-//@ harness: o10_2_span_merge_step props=C10 tier=quick obl=O10.2 timeout=1200 mem=14
+//@ harness: o10_2_span_merge_step props=C10 tier=quick obl=O10.2 timeout=800 mem=14
 //@ desc: spans of 1..2 symbolic cells each (first character a letter, second a drawing character) in an 8x8 window: Span::can_merge(a,b) <=> some cell of a is 8-adjacent to some cell of b; Span::merge returns Some exactly then and the result is a's cells followed by b's cells (nothing lost, nothing invented); symmetric
 //@ encodes: Span::can_merge, Span::merge, Span::merge_no_check, Span::is_adjacent, Cell::is_adjacent
 #[kani::proof]
@@ -81,7 +81,7 @@ fn o10_2_span_merge_step() {
     std::mem::forget(b);
 }
 
-//@ harness: o10_2_span_merge_1x1 props=C10 tier=quick obl=O10.2 timeout=900 mem=12
+//@ harness: o10_2_span_merge_1x1 props=C10 tier=quick obl=O10.2 timeout=800 mem=12
 //@ desc: two one-cell spans (cells anywhere in a 1000x1000 window, characters: letter/letter, letter/drawing char, drawing/drawing): Span::can_merge <=> the cells are 8-adjacent (Chebyshev distance <= 1, exact integer oracle); Span::merge is Some exactly then; in particular two labels one blank apart, or cells two apart in any direction, are NOT joined
 //@ encodes: Span::can_merge, Span::merge, Span::new, Cell::is_adjacent
 #[kani::proof]
@@ -118,7 +118,7 @@ fn o10_2_span_merge_1x1() {
     assert!(merged == expected, "O10.2 one-cell spans merge iff their cells are 8-adjacent");
 }
 
-//@ harness: o1_6_span_bounds_total props=C01,C06 tier=quick obl=O1.6 timeout=1200 mem=12
+//@ harness: o1_6_span_bounds_total props=C01,C06 tier=quick obl=O1.6 timeout=800 mem=12
 //@ desc: for every non-empty span of 1..3 symbolic cells (coords 0..1000): bounds() is Some((min x, min y),(max x, max y)) so top_left()'s expect cannot fire; localize() subtracts exactly the top-left from every cell and keeps the characters and order; shifting all cells by (k,n) <= 400x200 shifts bounds by (k,n) and leaves localize() unchanged
 //@ encodes: Span::bounds, Span::localize, Span::top_left (via localize_point), Cell::localize_cell
 #[kani::proof]
